@@ -273,7 +273,7 @@ func c18Trees(names []string, kinds []C18Node, budget int, emit func([]C18Node))
 
 func genC18(tier string, emit func(any)) {
 	names := []string{"a", "b", "ü", "a b"}
-	kinds := []C18Node{{Kind: "f", Size: 0}, {Kind: "f", Size: 1}, {Kind: "d"}, {Kind: "l", Target: "a"}, {Kind: "l", Target: "../x/y"}}
+	kinds := []C18Node{{Kind: "f", Size: 0}, {Kind: "f", Size: 1}, {Kind: "d"}, {Kind: "l", Target: "a"}, {Kind: "l", Target: "../x/y"}, {Kind: "l", Target: "./b/../a/"}}
 	maxN := 2
 	if tier == "thorough" {
 		maxN = 3
@@ -329,13 +329,13 @@ func init() {
 		Run:    runC18,
 		Setup:  func(string) error { return drv.BuildCar() },
 		Decode: kit.DecodeAs[C18Case],
-		Rule: "every directory tree with up to N entries over names {a, b, ü, 'a b'} x kinds {empty file, 1-byte file, directory, symlink to a sibling, dangling symlink}, plus files of chunk-1/chunk/chunk+1/3*chunk+5 bytes, a nesting chain of depth 6 (thorough: a 1200-entry sharded directory, all 4-wide top levels) " +
+		Rule: "every directory tree with up to N entries over names {a, b, ü, 'a b'} x kinds {empty file, 1-byte file, directory, symlink to a sibling, dangling symlink, symlink with a non-canonical target (./b/../a/)}, plus files of chunk-1/chunk/chunk+1/3*chunk+5 bytes, a nesting chain of depth 6 (thorough: a 1200-entry sharded directory, all 4-wide top levels) " +
 			"x --version {1,2} x --no-wrap x extraction from file / stdin x source {directory, single entry}, packed and extracted by the REAL car binary; oracle: tree equality (names, contents, link targets) under the documented mapping, exactly one root equal to `car root` and stored; non-trivial = tree with >= 2 entries",
 		Bound: func(tier string) map[string]any {
 			if tier == "thorough" {
-				return map[string]any{"entries": 3, "names": 4, "kinds": 5}
+				return map[string]any{"entries": 3, "names": 4, "kinds": 6}
 			}
-			return map[string]any{"entries": 2, "names": 4, "kinds": 5}
+			return map[string]any{"entries": 2, "names": 4, "kinds": 6}
 		},
 		Assumptions: []string{"permissions, ownership and timestamps are not compared (the property states names, contents and link targets)", "a bare symlink packed with --no-wrap has no name to extract to and is not compared"},
 	})
